@@ -51,6 +51,9 @@ def cases(tier, seed):
                 yield {"kind": "same_qu", "dist": rnd.choice(DISTS[:2]), "mn": mn, "seed": rnd.randrange(10**6)}
             else:
                 yield {"kind": "bdvs", "dist": rnd.choice(DISTS[:2]), "mean_var_batch_dim": -1, "mn": mn, "seed": rnd.randrange(10**6)}
+        # CIQ with more inducing points than any of its iteration caps' defaults (max_lanczos_quadrature_iterations = 20)
+        for dist in ("NaturalVariationalDistribution", "MeanFieldVariationalDistribution"):
+            yield {"kind": "svgp", "strategy": "CiqVariationalStrategy", "dist": dist, "zbatch": [], "pbatch": [], "dbatch": [], "mn": [26, 5], "wellcond": True, "seed": rnd.randrange(10**6)}
         for dist in DISTS[:3]:
             yield {"kind": "svgp", "strategy": "CiqVariationalStrategy", "dist": "NaturalVariationalDistribution" if dist == DISTS[0] else dist, "zbatch": [], "pbatch": [], "dbatch": [], "seed": rnd.randrange(10**6)}
         for dist, dim in itertools.product(DISTS[:2], [-1]):
@@ -142,7 +145,9 @@ def _randomize_vd(vd, name, g):
             p = vd.chol_variational_covar
             p.copy_(util.randn(g, *p.shape) * 0.3 + torch.eye(p.shape[-1]))  # upper triangle deliberately non-zero
         if name == "MeanFieldVariationalDistribution":
-            vd._variational_stddev.copy_(util.rand(g, *vd._variational_stddev.shape) + 0.3)
+            # (the raw scale is an unconstrained parameter: negative entries are valid states, S_ii = s_i^2)
+            sg = (util.rand(g, *vd._variational_stddev.shape) < 0.35).double() * -2 + 1
+            vd._variational_stddev.copy_((util.rand(g, *vd._variational_stddev.shape) + 0.3) * sg)
         if name == "NaturalVariationalDistribution":
             Mn = vd.natural_mat.shape[-1]
             L = torch.tril(util.randn(g, *vd.natural_mat.shape)) * 0.3 + torch.eye(Mn)
@@ -150,7 +155,9 @@ def _randomize_vd(vd, name, g):
             vd.natural_mat.copy_(-0.5 * P)
         if name == "TrilNaturalVariationalDistribution":
             Mn = vd.natural_tril_mat.shape[-1]
-            vd.natural_tril_mat.copy_(torch.tril(util.randn(g, *vd.natural_tril_mat.shape)) * 0.3 + 1.5 * torch.eye(Mn))
+            # (negative diagonal entries of the factor are valid states: the precision is T^T T)
+            sg = (util.rand(g, *vd.natural_tril_mat.shape[:-1]) < 0.35).double() * -2 + 1
+            vd.natural_tril_mat.copy_(torch.tril(util.randn(g, *vd.natural_tril_mat.shape)) * 0.3 + torch.diag_embed(1.5 * sg))
 
 
 class _Model:
@@ -275,6 +282,12 @@ def _svgp(case, ctx, g):
     ciq = strat == "CiqVariationalStrategy"
     m = _mk_model(strat, dist, case["zbatch"], case["pbatch"], g)
     vs = m.variational_strategy
+    if case.get("wellcond"):
+        # many inducing points, but a well-conditioned K_ZZ (points spread over several lengthscales): the contour-integral
+        # quadrature is accurate there, so deviations are the code's, not the approximation's
+        with torch.no_grad():
+            vs.inducing_points.copy_(2.5 * util.randn(g, *vs.inducing_points.shape))
+            m.covar_module.base_kernel.lengthscale = 0.4
     X = util.randn(g, *case["dbatch"], N_, D)
     Z = vs.inducing_points.detach()
     if case.get("xrel"):
